@@ -1,7 +1,6 @@
 (* Model driver: reads one request per line "<op>\t<sexp>", prints one result sexp per line.
    Model-side exceptions are printed as (driver-error "...") so that a line count mismatch can
    never hide a case. *)
-let force_link = [ Ops_gamma.linked ]
 let () =
   let b = Buffer.create 4096 in
   (try
